@@ -17,7 +17,7 @@ META = {
     "explanation": "the long-term predicate normalises to: no lot => False; else (event.timestamp - lot.timestamp).days >= country period, on the two "
     "transactions' own tz-aware datetimes (no .date(), no total_seconds, no tz stripping); every transaction timestamp comes from the parser that rejects naive "
     "values; each country plugin's period constant-folds to the statement's value (365 US/ES, unreachable for JP/IE, validated env value for generic); "
-    "every LONG/SHORT cell or key in the tree is computed from that one predicate (or the yearly line's stored flag), LONG on the true side; the yearly line a fraction is added to carries the flag computed from that same fraction.",
+    "every LONG/SHORT cell or key in the tree is computed from that one predicate (or the yearly line's stored flag), LONG on the true side; the yearly line a fraction is added to carries the flag computed from that same fraction; a label decided inside a row loop is decided afresh in every iteration (no loop-carried label reaches a cell).",
     "restated": 'no memoisation of the predicate or its inputs by a key coarser than the fraction (C17.c)',
     "not_decided": "datetime subtraction semantics themselves (trusted), run-time values.",
     "assumptions": ["aware-datetime subtraction compares instants; timedelta.days is the floor in whole days", "timedelta.max.days == 999999999"],
@@ -155,7 +155,9 @@ def run(rep: Report, tier: str) -> None:
 
     # ---------------------------------------------------------------- C05.d
     r = rep.rule("C05.d", "one definition: every LONG/SHORT decision derives from the per-fraction predicate (or the yearly line's stored flag)", floor=4)
+    rg = rep.rule("C05.g", "a LONG/SHORT label decided inside a row loop is decided afresh for every row: no cell shows the label left over from an earlier fraction", floor=1)
     n_sites = 0
+    fresh_loops = set()
     for f in prog.iter_functions():
         for node in ast.walk(f.node):
             if not isinstance(node, ast.IfExp):
@@ -181,6 +183,13 @@ def run(rep: Report, tier: str) -> None:
                 loc(node),
             )
             rep.analysed(f)
+            from ..loader import ancestors
+            from ..stale import check_rows_fresh
+
+            loop = next((a for a in ancestors(node) if isinstance(a, ast.For)), None)
+            if loop is not None and id(loop) not in fresh_loops:
+                fresh_loops.add(id(loop))
+                check_rows_fresh(rep, rg, norm, f, loop, f"{f.qualname}: rows carrying a LONG/SHORT label")
     # no second implementation of the holding-period test
     for f in prog.iter_functions():
         if f.fq == fi.fq or f.name == "get_long_term_capital_gain_period":
